@@ -417,6 +417,21 @@ func (m *Manager) Poll() error {
 	return nil
 }
 
+// IfStillPolling runs fn if the manager is still in a poll, holding the state lock so that
+// no Sleep or Wake can run at the same time (a Wake in progress is waited for and then
+// makes the answer "no"). It reports whether fn was run. The poll callback uses it for the
+// "disconnect again" step at the end of its window, which must not undo a wake.
+func (m *Manager) IfStillPolling(fn func()) bool {
+	m.stateMu.Lock()
+	defer m.stateMu.Unlock()
+
+	if m.state.Load().(State) != StatePolling {
+		return false
+	}
+	fn()
+	return true
+}
+
 // GetState returns the current sleep state.
 func (m *Manager) GetState() State {
 	return m.state.Load().(State)
